@@ -281,4 +281,70 @@ theorem rawField_facts (s : St) (r : Except Err Unit) (s' : St) (h : rawField s 
       obtain ⟨rfl, rfl⟩ := h
       exact ⟨f1.law.toQ, np_ok _⟩
 
+/-! ## a capped read FAILS once the cap is exceeded -/
+
+theorem ensure_one_buffered (s : St) (c : UInt8) (rest : Bytes) (hb : s.d.buf = c :: rest) :
+    ensure 1 s = (.ok (), { s with m := { s.m with need := max s.m.need 1 } }) := by
+  obtain ⟨⟨buf, eom, src⟩, enc, key, m⟩ := s
+  simp only at hb
+  subst hb
+  unfold ensure
+  rw [pull_of_le 1 _ _ _ _ (by simp)]
+  simp [lenGe]
+
+/-- the plaintext loop of the capped string reader on `fuel` buffered non-NUL bytes: it runs out of
+    budget and FAILS -/
+theorem cstrMax_fails (cap : Nat) : ∀ (fuel : Nat) (s : St) (acc : Bytes) (k : Nat) (pre rest : Bytes),
+    s.d.buf = pre ++ rest → pre.length = fuel → (∀ b ∈ pre, b ≠ 0) →
+    (cstrMax cap fuel s acc k).1 = .error .sizeExceeded := by
+  intro fuel
+  induction fuel with
+  | zero => intro s acc k pre rest _ _ _; rfl
+  | succ fuel ih =>
+    intro s acc k pre rest hb hl hnz
+    cases pre with
+    | nil => simp at hl
+    | cons c pre' =>
+      have hb' : s.d.buf = c :: (pre' ++ rest) := by rw [hb]; rfl
+      have hc : c ≠ 0 := hnz c (List.mem_cons_self ..)
+      simp only [cstrMax, ensure_one_buffered s c _ hb', hb', if_neg hc]
+      apply ih _ _ _ pre' rest
+      · rfl
+      · simpa using hl
+      · intro b hbm; exact hnz b (List.mem_cons_of_mem _ hbm)
+
+
+theorem getStringMax_plain_fails (cap : Nat) (hc : 0 < cap) (s : St) (pre rest : Bytes) (henc : s.enc = false)
+    (hb : s.d.buf = pre ++ rest) (hl : pre.length = cap) (hnz : ∀ b ∈ pre, b ≠ 0) :
+    (getStringMax cap s).1 = .error .sizeExceeded := by
+  unfold getStringMax
+  rw [if_neg (by omega)]
+  have h1 : (s.call).enc = false := henc
+  simp only [h1]
+  exact cstrMax_fails cap cap s.call [] 0 pre rest hb hl hnz
+
+theorem getStringMax_enc_fails (cap : Nat) (hc : 0 < cap) (s : St) (len : Int) (s1 : St) (henc : s.enc = true)
+    (hlen : getInt32 s.call = (.ok len, s1)) (hbig : (cap : Int) < len) :
+    ∀ v, (getStringMax cap s).1 ≠ .ok v := by
+  intro v
+  unfold getStringMax
+  rw [if_neg (by omega)]
+  have h1 : (s.call).enc = true := henc
+  simp only [h1, if_true, hlen]
+  rw [if_neg (by omega)]
+  generalize ensure (min len.toNat cap) s1 = er
+  obtain ⟨r, s2⟩ := er
+  cases r with
+  | error e => simp
+  | ok u =>
+    simp only
+    rw [if_pos (by omega)]
+    simp
+
+theorem adString_over_budget (cap total : Nat) (hc : 0 < cap) (ht : cap ≤ total) (s : St) :
+    adString cap total s = (.error .sizeExceeded, s) ∧ adSecret cap total s = (.error .sizeExceeded, s) := by
+  unfold adString adSecret
+  rw [if_neg (by omega), if_pos ht, if_neg (by omega), if_pos ht]
+  exact ⟨rfl, rfl⟩
+
 end Cedar.Decode
